@@ -6,7 +6,7 @@ use crate::case::Case;
 use crate::common::*;
 use crate::gen;
 use crate::json::{bytes_j, J};
-use crate::pma::{self, kind_name, Entry, Method, Pma, Spec, Variant};
+use crate::pma::{kind_name, Entry, Method, Pma, Spec, Variant};
 use crate::rng::Rng;
 use daachorse::{Empty, Serializable};
 use std::collections::HashMap;
@@ -401,6 +401,10 @@ fn typed_run<V: Val>(ctx: &mut Ctx, which: Which, idx: u64, rng: &mut Rng, mut c
             }
         }
     }
+    if case.spec.entry == Entry::New && V::MAX_INDEX.map_or(false, |m| case.patterns.len() > m + 1) {
+        // more patterns than the type can index: use explicit values instead
+        case.spec.entry = Entry::WithValues;
+    }
     let spec = case.spec;
     let vals: Vec<V> = typed_values::<V>(rng, case.patterns.len(), spec.entry);
     case.values = (0..case.patterns.len() as u32).collect();
@@ -410,7 +414,7 @@ fn typed_run<V: Val>(ctx: &mut Ctx, which: Which, idx: u64, rng: &mut Rng, mut c
         println!("case {idx}: V={} {}", V::NAME, case.to_json(300, 2000).to_string());
         println!("values: {:?}", &vals[..vals.len().min(50)]);
     }
-    let p: Pma<V> = match pma::build(spec, &case.patterns, &vals) {
+    let p: Pma<V> = match build_guarded(spec, &case.patterns, &vals) {
         Ok(p) => p,
         Err(e) => {
             ctx.rep.count("build_failed_on_valid_input", 1);
@@ -514,6 +518,8 @@ pub fn run_case(ctx: &mut Ctx, which: Which, idx: u64) {
         gen::small_case(&mut rng, variant, kind, true)
     } else if rng.below(40) == 0 {
         gen::large_case(&mut rng, variant, kind, if ctx.tier == Tier::Thorough { 6000 } else { 1500 })
+    } else if ctx.mode == Mode::Native && rng.below(2500) == 0 {
+        gen::many_patterns_case(&mut rng, variant, kind) // output positions beyond 16 bits
     } else {
         gen::small_case(&mut rng, variant, kind, false)
     };
